@@ -101,7 +101,7 @@ def judge2_c07(line, impl):
         sent = "".join(w for w in t[6].split(",") if w != "-") or "-"
         return ("recread %s %s %s %s %s %s" % (t[1], t[2], t[3], t[4], wire, sent), "%s eof 1" % sent)
     return None
-HOOK_COMMITS = ["f0964c3", "f0ee85c", "a38392f", "da161e5", "5e35e30", "48a35e4", "bcc879f", "e7e32d2", "7bc6616", "1d0b9a9", "1418b64", "cbd428e", "2855402", "ccf80ce", "3a7a9aa", "9982186", "9f32c22", "4c97fac", "0b6988e", "21dc541"]
+HOOK_COMMITS = ["f0964c3", "f0ee85c", "a38392f", "da161e5", "5e35e30", "48a35e4", "bcc879f", "e7e32d2", "7bc6616", "1d0b9a9", "1418b64", "cbd428e", "2855402", "ccf80ce", "3a7a9aa", "9982186", "9f32c22", "4c97fac", "0b6988e", "21dc541", "613473f", "b9e98fd"]
 NOT_BUILT_REASON = "no check registered yet: the Lean model/theorems and the correspondence harness for this property have not been built in this session (work in progress, see DESIGN.md §12); the technique applies"
 
 PROPS["C05"] = {
@@ -438,8 +438,9 @@ PROPS["C09"] = {
 
 PROPS["C17"] = {
     "tie_ops": ["ber2der", "p7pad", "p7unpad", "bmp", "unbmp", "p12fill"],
-    "modules": ["Gmsm.Props.C17", "Gmsm.Props.C17Idem", "Gmsm.Props.C17KDF", "Gmsm.Props.C17Key", "Gmsm.Props.C17Mem", "Gmsm.Props.C17Fix", "Gmsm.Props.C18Empty"],
+    "modules": ["Gmsm.Props.C17", "Gmsm.Props.C17Idem", "Gmsm.Props.C17KDF", "Gmsm.Props.C17Key", "Gmsm.Props.C17Mem", "Gmsm.Props.C17Fix", "Gmsm.Props.C18Empty", "Gmsm.Props.C17MacLen"],
     "theorems": [
+        "Props.C17MacLen.hmacSHA1_length", "Props.C17MacLen.mac_accepted_has_hmac_length", "Props.C17MacLen.mac_accepts_iff_exact_length", "Props.C17MacLen.mac_wrong_length_rejected", "Props.C17MacLen.mac_proper_prefix_rejected", "Props.C17MacLen.mac_proper_suffix_rejected", "Props.C17MacLen.mac_extended_rejected", "Props.C17MacLen.getSafeContents_wrong_length_rejected", "Props.C17MacLen.sha1_mac_accepted_has_20_octets", "Props.C17MacLen.sha1_pfx_wrong_length_rejected",
         "Props.C18Empty.ber2der_empty_indefinite_byte", "Props.C18Empty.ber2der_indefinite",
         "Props.C17Key.sm2_bundle_topem", "Props.C17Key.topem_total", "Props.C17Fix.decode_sound", "Props.C17Fix.decode_encodeBags", "Props.C17Fix.decode_never_another_certificate", "Props.C17Fix.decodeAll_encodeBags", "Props.C17Fix.toPEM_encodeBags", "Props.C17Fix.decodeOld_returns_last_ca", "Props.C17Fix.pairAccepted_iff", "Props.C17Fix.gmt0010_pair_accepted", "Props.C17Fix.gmt0010_signer_verifies", "Props.C17Fix.encryptRecipients_iff", "Props.C17Fix.encryptRecipientsOld_agrees", "Props.C17Fix.concatSegments_prims", "Props.C17Fix.contentOf_segments", "Props.C17Fix.concatSegments_error", "Props.C17Fix.parseSignedData_fails_closed", "Props.C17Fix.parseSignedData_ok_iff",
         "Props.C17Mem.padMem_frame", "Props.C17Mem.padMem_caller_buffer_unchanged", "Props.C17Mem.padMem_value", "Props.C17Mem.padInPlace_writes_caller_memory", "Props.C17Key.encode_accepts_iff", "Props.C17Key.parse_marshal", "Props.C17Key.parse_marshal_std", "Props.C17Key.stdParams_sane", "Props.C17Key.accepted_key_decodes", "Props.C17Key.rsa_bundle_decodes", "Props.C17Key.topem_writes_inner_key", "Props.C17Key.unknown_algorithm_rejected", "Props.C17Key.rsa_alg_needs_rsa_key",
@@ -477,8 +478,9 @@ PROPS["C17"] = {
 
 PROPS["C18"] = {
     "judge": judge_parsers,
-    "modules": ["Gmsm.Props.C18", "Gmsm.Props.C18Linear", "Gmsm.Props.C18Output", "Gmsm.Props.C02", "Gmsm.Props.C17", "Gmsm.Props.C16", "Gmsm.Props.C16Codec", "Gmsm.Props.C14Codec", "Gmsm.Props.C17Idem", "Gmsm.Props.C15Codec", "Gmsm.Props.C09Names", "Gmsm.Props.C15KeyAgreement", "Gmsm.Props.C17Fix", "Gmsm.Props.C15Strict", "Gmsm.Props.C18Empty", "Gmsm.Props.C18PubHex"],
+    "modules": ["Gmsm.Props.C18", "Gmsm.Props.C18Linear", "Gmsm.Props.C18Output", "Gmsm.Props.C02", "Gmsm.Props.C17", "Gmsm.Props.C16", "Gmsm.Props.C16Codec", "Gmsm.Props.C14Codec", "Gmsm.Props.C17Idem", "Gmsm.Props.C15Codec", "Gmsm.Props.C09Names", "Gmsm.Props.C15KeyAgreement", "Gmsm.Props.C17Fix", "Gmsm.Props.C15Strict", "Gmsm.Props.C18Empty", "Gmsm.Props.C18PubHex", "Gmsm.Props.C18TicketAlloc"],
     "theorems": [
+        "Props.C18TicketAlloc.unmarshal_count_bounded", "Props.C18TicketAlloc.allocSlots_linear", "Props.C18TicketAlloc.unmarshal_accepts_same", "Props.C18TicketAlloc.allocPoint_of_accept", "Props.C18TicketAlloc.allocSlots_accept", "Props.C18TicketAlloc.old_decoder_unbounded", "Props.C18TicketAlloc.demo_refused",
         "Props.C18PubHex.readPublicKey_sound", "Props.C18PubHex.readPublicKey_le_old", "Props.C18PubHex.readPublicKey_complete", "Props.C18PubHex.old_accepts_non_point",
         "Props.C18.readItems_ok_cases", "Props.C18Empty.ber2der_empty_indefinite_byte", "Props.C18Empty.ber2der_empty_indefinite", "Props.C18Empty.readObject_empty_indefinite", "Props.C18Empty.readObject_indefinite", "Props.C18Empty.ber2der_indefinite", "Props.C18Empty.ber2der_indefinite_members", "Props.C18Empty.startsEOC_encodeTo",
         "Props.C17Fix.parseSignedData_fails_closed",
@@ -529,8 +531,10 @@ PROPS["C18"] = {
 
 PROPS["C16"] = {
     "tie_ops": ["lru", "sstate", "sstatem"],
-    "modules": ["Gmsm.Props.C16", "Gmsm.Props.C16Codec", "Gmsm.Props.C16Enable", "Gmsm.Props.C16Cap"],
+    "modules": ["Gmsm.Props.C16", "Gmsm.Props.C16Codec", "Gmsm.Props.C16Enable", "Gmsm.Props.C16Cap", "Gmsm.Props.C16Graft"],
     "theorems": [
+        "Props.C16Graft.resume_requires_offered_suite", "Props.C16Graft.suite_not_offered_never_resumes", "Props.C16Graft.foreign_not_offered_falls_back", "Props.C16Graft.foreign_not_offered_not_resumed", "Props.C16Graft.foreign_eq_stock", "Props.C16Graft.runG_eq_run", "Props.C16Graft.inv_reachG", "Props.C16Graft.history_foreign_resumption_sound",
+        "Props.C16Codec.marshalCerts_length_ge", "Props.C16Codec.unmarshalCerts_count_le",
         "Props.C16Enable.ensureKeys_nonempty", "Props.C16Enable.ensureKeys_keeps", "Props.C16Enable.ensureKeys_idem", "Props.C16Enable.encryptTicket_isSome", "Props.C16Enable.old_key_nonempty", "Props.C16Enable.issues_enabled", "Props.C16Enable.serve_never_panics", "Props.C16Enable.history_never_panics", "Props.C16Enable.handshake_alone_panics", "Props.C16Enable.put_find", "Props.C16Enable.disabled_serves_full", "Props.C16Enable.enabled_full_handshake_issues", "Props.C16Cap.ticketLen_le_cap", "Props.C16Cap.ticketLen_eq", "Props.C16Cap.clientStores_iff", "Props.C16Cap.marshalCerts_length", "Props.C16Cap.sealedLen_eq_marshal", "Props.C16Cap.writeU16s_length", "Props.C16Cap.protoEntries_length", "Props.C16Cap.opt_length", "Props.C16Cap.opt_le", "Props.C16Cap.chExtensions_length_le", "Props.C16Cap.marshalClientHello_length_le", "Props.C16Cap.capped_ticket_fits_clientHello", "Props.C16Cap.issued_ticket_fits_clientHello", "Props.C16Cap.issued_ticket_fits_newSessionTicket", "Props.C16Cap.marshalClientHello_length_ge", "Props.C16Cap.uncapped_ticket_never_fits", "Props.C16.history_resumption_sound_handshake",
         "Props.C16.gate_iff", "Props.C16.altered_ticket_never_resumes", "Props.C16.retired_key_never_resumes",
         "Props.C16.disabled_never_resumes", "Props.C16.unacceptable_certs_never_resume", "Props.C16.conn_resumed_iff", "Props.C16.conn_resumed",
@@ -682,8 +686,10 @@ PROPS["C15"] = {
 }
 
 PROPS["C08"] = {
-    "modules": ["Gmsm.Props.C08", "Gmsm.Props.C08Inter", "Gmsm.Props.C15KeyAgreement"],
+    "modules": ["Gmsm.Props.C08", "Gmsm.Props.C08Inter", "Gmsm.Props.C15KeyAgreement", "Gmsm.Props.C08ClientResume", "Gmsm.Props.C08Resume"],
     "theorems": [
+        "Props.C08Resume.policyMet_iff", "Props.C08Resume.gate_meets_policy", "Props.C08Resume.require_never_resumes_anonymous", "Props.C08Resume.full_meets_policy", "Props.C08Resume.served_meets_policy", "Props.C08Resume.conn_outcome_served", "Props.C08Resume.connect_auth", "Props.C08Resume.connect_meets_policy", "Props.C08Resume.history_meets_policy", "Props.C08Resume.runItems_length",
+        "Props.C08ClientResume.leafAcceptable_iff", "Props.C08ClientResume.leafAcceptable_isValid", "Props.C08ClientResume.certsAcceptable_verifying", "Props.C08ClientResume.attempt_resumed", "Props.C08ClientResume.client_resumes_only_verified", "Props.C08ClientResume.refused_session_full_handshake", "Props.C08ClientResume.gate_refuses", "Props.C08ClientResume.insecure_store_no_chains", "Props.C08ClientResume.insecure_session_not_resumed", "Props.C08ClientResume.verifyLeaves_ok", "Props.C08ClientResume.verifying_store", "Props.C08ClientResume.conn_resumed_verified", "Props.C08ClientResume.old_gate_witness",
         "Props.C08Inter.certList_leaves_first", "Props.C08Inter.certList_plain", "Props.C08Inter.certList_complete", "Props.C08Inter.certList_sound", "Props.C08Inter.certList_rest_nodup", "Props.C08Inter.server_chain_uses_rest", "Props.C08Inter.empty_pool_needs_direct_issuer", "Props.C08Inter.chainOK_via_intermediate", "Props.C08Inter.client_verifies_via_intermediate", "Props.C15KeyAgreement.ecdheGM_always_error",
         "Props.C08.clientVerdict_none_iff", "Props.C08.serverVerdict_none_iff", "Props.C08.peerCertsCheck_none_iff",
         "Props.C08.client_accepts_iff", "Props.C08.client_accepts_only_if", "Props.C08.verify_ok_nonempty",
@@ -693,6 +699,7 @@ PROPS["C08"] = {
         "Props.C08.possession_needed", "Props.C08.server_needs_decryption_key", "Props.C08.foreign_ske_rejected",
         "Props.C08.foreign_cv_rejected", "Props.C08.run_done_sound", "Props.C08.run_never_diverges",
         "Props.C08.ideal_binding", "Props.C08.ideal_unforgeable", "Props.C08.run_never_diverges_ideal",
+        "Props.C08Resume.policyMet_iff", "Props.C08Resume.gate_meets_policy", "Props.C08Resume.require_never_resumes_anonymous", "Props.C08Resume.full_meets_policy", "Props.C08Resume.served_meets_policy", "Props.C08Resume.conn_outcome_served", "Props.C08Resume.connect_auth", "Props.C08Resume.connect_meets_policy", "Props.C08Resume.history_meets_policy", "Props.C08Resume.runItems_length",
     ],
     "gen_items": [],
     "level": "proof",
